@@ -18,6 +18,7 @@
 use vstd::prelude::*;
 use vstd::slice::*;
 use std::convert::TryInto;
+use std::sync::Arc;
 
 verus! {
 
@@ -30,6 +31,8 @@ verus! {
 /*@include units/lib0_common/varint.rs @*/
 
 /*@include units/lib0_v2/dec.rs @*/
+
+/*@include units/lib0_v2/v2new.rs @*/
 
 /*@include units/lib0_v2/enc.rs @*/
 
